@@ -27,6 +27,9 @@ func init() {
 	}, runC20)
 
 	addVariants(
+		Variant{ID: "c20-r3-swapped-type-constants", Prop: "C20", File: "mysql_types.go",
+			Old: "\tcolumnTypeDateTime2             = replication.TypeDateTime2  //日期时间\n\tcolumnTypeTime2                 = replication.TypeTime2      //时间\n", New: "\tcolumnTypeTime2                 = replication.TypeDateTime2  //时间\n\tcolumnTypeDateTime2             = replication.TypeTime2      //日期时间\n",
+			Expect: "C20-R3 name-of@columnType"},
 		Variant{ID: "c20-r1-float-field", Prop: "C20", File: "transaction.go",
 			Old: "\t\tTimestamp    string         `json:\"timestamp\"`\n\t\tEvents       []*StreamEvent `json:\"events\"`\n\t}{", New: "\t\tTimestamp    string         `json:\"timestamp\"`\n\t\tEvents       []*StreamEvent `json:\"events\"`\n\t\tLag          float64        `json:\"lag\"`\n\t}{",
 			Expect: "C20-R1 kind@"},
@@ -162,6 +165,16 @@ func runC20(a *A) {
 	c20R2(a, marshalers)
 	c20R3(a)
 	c20R4(a, marshalers["ColumnData"])
+	// R5: serialisation is a function of the transaction alone (no memoised encodings)
+	{
+		var roots []*ssa.Function
+		for _, f := range w.srcFuncs(w.Root) {
+			if f.Signature.Recv() != nil && (f.Name() == "MarshalJSON" || f.Name() == "String" || f.Name() == "MarshalText") {
+				roots = append(roots, f)
+			}
+		}
+		statelessRule(a, "C20-R5", "the marshalers and String methods", roots, w.Root)
+	}
 }
 
 func implementsNamed(t types.Type, pkgPath, iface string, w *World) bool {
@@ -673,6 +686,20 @@ func c20R3(a *A) {
 		name := tables["columnTypeStrings"][v]
 		a.check(mirrored && name != "", rule, "name@columnType["+tn+"]", "-", fmt.Sprintf("%s = %s -> %q", cn, tn, name),
 			fmt.Sprintf("replication.%s (=%d) has no column-type constant or no name in columnTypeStrings: such columns serialise as \"unknown\"", tn, v))
+		// the name printed for wire type v is the name of that wire type (two constants with swapped values keep the
+		// table total and distinct but label DATETIME columns as TIME)
+		if mirrored && name != "" {
+			norm := func(s string) string {
+				return strings.Map(func(r rune) rune {
+					if r == '_' || r == ' ' || r == '-' {
+						return -1
+					}
+					return r
+				}, strings.ToLower(s))
+			}
+			a.check(norm(name) == norm(strings.TrimPrefix(tn, "Type")), rule, "name-of@columnType["+tn+"]", "-", fmt.Sprintf("wire type %d (%s) is named %q", v, tn, name),
+				fmt.Sprintf("a column of wire type %d (replication.%s) serialises with the type name %q: the name table is attached to the wrong constant (%s)", v, tn, name, cn))
+		}
 	}
 	for v, sn := range statementNames(w) {
 		if sn == "Unknown" {
